@@ -233,8 +233,8 @@ class Kernel:
 
     def select_(self, rlist, wlist, xlist, timeout=None):
         self.selects += 1
-        if self.selects > 200:
-            raise HarnessError("more than 200 select calls in one execution (livelock?)")
+        if self.selects > getattr(self, "max_selects", 200):
+            raise HarnessError("more than %d select calls in one execution (livelock?)" % getattr(self, "max_selects", 200))
         self.point("select")
         start = self.clock
         deadline = None if timeout is None else start + max(0.0, timeout)
